@@ -106,10 +106,11 @@ func kindOfName(n string) byte {
 // ---- generated configuration tree -----------------------------------------
 
 type tn struct {
-	kind  byte // 'o' literal object, 'l' literal list, 'e' expression
+	kind  byte // 'o' literal object, 'l' literal list, 'e' expression, 'v' typed primitive
 	kids  map[string]*tn
 	elems []*tn
 	ex    *model.Ex
+	val   interface{} // 'v': int64
 }
 
 type tworld struct {
@@ -395,6 +396,8 @@ func (t *tworld) flatten(n *tn, path string) {
 		for i, c := range n.elems {
 			t.flatten(c, join(path, strconv.Itoa(i)))
 		}
+	case 'v':
+		t.w.Root[path] = &model.Setting{Val: n.val}
 	default:
 		t.w.Root[path] = &model.Setting{Ex: n.ex}
 	}
@@ -414,6 +417,8 @@ func (n *tn) toGo() interface{} {
 			l = append(l, c.toGo())
 		}
 		return l
+	case 'v':
+		return n.val
 	}
 	return n.ex.Render(false)
 }
@@ -439,6 +444,8 @@ func (n *tn) render(b *strings.Builder) {
 			c.render(b)
 		}
 		b.WriteByte(']')
+	case 'v':
+		fmt.Fprint(b, n.val)
 	default:
 		b.WriteString(strconv.Quote(n.ex.Render(false)))
 	}
@@ -873,6 +880,7 @@ func memberType(nodeT reflect.Type, name string) reflect.Type {
 // ---- the run ---------------------------------------------------------------
 
 type stepGuard struct {
+	sig     string // signature prefix of a budget violation ("typed-target:" if empty)
 	res     *harness.R
 	desc    string
 	steps   int
@@ -905,7 +913,11 @@ func (g *stepGuard) run(what string, f func()) (ok bool) {
 				ok = false
 				if _, isBudget := rec.(budgetExceeded); isBudget {
 					g.aborted = true
-					g.res.Violate("typed-target:step-budget-exceeded", "%s performed more than %d reference resolutions; %s", what, budget, g.desc)
+					sig := g.sig
+					if sig == "" {
+						sig = "typed-target:"
+					}
+					g.res.Violate(sig+"step-budget-exceeded", "%s performed more than %d reference resolutions; %s", what, budget, g.desc)
 					return
 				}
 				g.res.Violate("panic", "%s panicked: %v; %s", what, rec, g.desc)
